@@ -33,7 +33,7 @@ pub enum Call {
 }
 
 #[derive(Clone, Debug)]
-pub struct Script { pub mode: TransportMode, pub trxs: Vec<(MediaKind, TransceiverDirection)>, pub calls: Vec<Call> }
+pub struct Script { pub mode: TransportMode, pub bad_bind: bool, pub trxs: Vec<(MediaKind, TransceiverDirection)>, pub calls: Vec<Call> }
 
 fn mode_ch(m: &TransportMode) -> char { match m { TransportMode::WebRtc => 'w', TransportMode::Srtp => 's', TransportMode::Rtp => 'r' } }
 fn kind_ch(k: MediaKind) -> char { match k { MediaKind::Audio => 'a', MediaKind::Video => 'v', MediaKind::Application => 'd', MediaKind::Image => 'i' } }
@@ -59,7 +59,7 @@ pub fn call_text(c: &Call) -> String {
     }
 }
 pub fn script_text(s: &Script) -> String {
-    format!("{}/{}/{}", mode_ch(&s.mode),
+    format!("{}{}/{}/{}", mode_ch(&s.mode), if s.bad_bind { "!" } else { "" },
         s.trxs.iter().map(|(k, d)| format!("{}{}", kind_ch(*k), dir_ch(*d))).collect::<Vec<_>>().join(","),
         s.calls.iter().map(call_text).collect::<Vec<_>>().join(";"))
 }
@@ -85,10 +85,11 @@ pub fn parse_call(t: &str) -> Call {
 pub fn parse_script(s: &str) -> Script {
     let s = s.split_whitespace().next().unwrap_or("");
     let p: Vec<&str> = s.split('/').collect();
-    let mode = match p[0] { "w" => TransportMode::WebRtc, "s" => TransportMode::Srtp, _ => TransportMode::Rtp };
+    let mode = match &p[0][..1] { "w" => TransportMode::WebRtc, "s" => TransportMode::Srtp, _ => TransportMode::Rtp };
+    let bad_bind = p[0].ends_with('!');
     let trxs = p[1].split(',').filter(|x| !x.is_empty()).map(|x| { let c: Vec<char> = x.chars().collect(); (parse_kind(c[0]), parse_dir(c[1])) }).collect();
     let calls = p[2].split(';').filter(|x| !x.is_empty()).map(parse_call).collect();
-    Script { mode, trxs, calls }
+    Script { mode, bad_bind, trxs, calls }
 }
 
 // ------------------------------------------------------------------------------------------------
@@ -227,8 +228,8 @@ impl Tables {
 
 fn hx(s: &str) -> String { hex(s.as_bytes()) }
 
-/// The abstract description token for the model: `ty|id|eq|fp|sec;sec…`,
-/// sec = `kind,mid,dir,formats,rtpmaps,extmaps` (strings in hex, lists joined by `+`).
+/// The abstract description token for the model: `ty|id|eq|fp|groups|sec;sec…`,
+/// sec = `kind,mid,dir,formats,rtpmaps,extmaps,addr4,addrAny` (strings in hex, lists joined by `+`).
 fn desc_token(t: &mut Tables, d: &SessionDescription) -> String {
     let fp = match d.dtls_fingerprint() {
         Ok(Some(f)) if f.algorithm == "sha-256" => format!("s{}", t.fp_id(&f.value)),
@@ -242,13 +243,22 @@ fn desc_token(t: &mut Tables, d: &SessionDescription) -> String {
             if v.is_empty() { "_".into() } else { v.join("+") }
         };
         let fmts: Vec<String> = m.formats.iter().map(|f| hx(f)).collect();
-        format!("{},{},{},{},{},{}", kind_name(m.kind), hx(&m.mid), sdir_name(m.direction),
-            if fmts.is_empty() { "_".into() } else { fmts.join("+") }, vals("rtpmap"), vals("extmap"))
+        // the two address tests of the code (`set_remote_description` section loop / `remote_rtp_addr_from_section`)
+        let conn = m.connection.as_ref().or(d.session.connection.as_ref());
+        let parts: Vec<&str> = conn.map(|c| c.split_whitespace().collect()).unwrap_or_default();
+        let ip_ok = parts.len() >= 3 && parts[0] == "IN" && parts[2].parse::<std::net::IpAddr>().is_ok();
+        let a4 = ip_ok && parts[1] == "IP4";
+        let aa = ip_ok && matches!(parts[1], "IP4" | "IP6");
+        format!("{},{},{},{},{},{},{},{}", kind_name(m.kind), hx(&m.mid), sdir_name(m.direction),
+            if fmts.is_empty() { "_".into() } else { fmts.join("+") }, vals("rtpmap"), vals("extmap"), a4 as u8, aa as u8)
     }).collect();
+    let groups: Vec<String> = d.session.attributes.iter().filter(|a| a.key == "group")
+        .map(|a| match &a.value { Some(v) => hx(v), None => "~".into() }).collect();
     let id = t.desc_id(d);
     if t.sent.contains(&id) { return format!("@{id}"); }
     t.sent.push(id);
-    format!("{}|{}|{}|{}|{}", ty_ch(d.sdp_type), id, t.eq_id(d), fp, if secs.is_empty() { "_".into() } else { secs.join(";") })
+    format!("{}|{}|{}|{}|{}|{}", ty_ch(d.sdp_type), id, t.eq_id(d), fp, if groups.is_empty() { "_".into() } else { groups.join("+") },
+        if secs.is_empty() { "_".into() } else { secs.join(";") })
 }
 
 fn snap_text(t: &mut Tables, res: &str, s: &PeerSnapshot) -> String {
@@ -297,6 +307,12 @@ fn call_class(c: &Call) -> String {
     }
 }
 
+/// Errors raised by the socket / ICE layer (environment), as opposed to the signaling checks.
+fn is_env_error(e: &RtcError) -> bool {
+    let m = e.to_string();
+    m.contains("os error") || m.contains("No local candidates") || m.contains("socket bind failed") || m.contains("direct error")
+}
+
 /// Fields of the snapshot the property names; returns the names of the fields that differ.
 fn diff_fields(a: &PeerSnapshot, b: &PeerSnapshot) -> Vec<&'static str> {
     let mut v = vec![];
@@ -319,17 +335,18 @@ fn diff_fields(a: &PeerSnapshot, b: &PeerSnapshot) -> Vec<&'static str> {
 
 pub struct Outcome { pub input: String, pub output: String, pub fails: Vec<(String, String)>, pub n_err: usize, pub n_ok: usize, pub states: Vec<SignalingState> }
 
-fn config(mode: &TransportMode) -> RtcConfiguration {
+fn config(mode: &TransportMode, bad_bind: bool) -> RtcConfiguration {
     let mut c = RtcConfiguration::default();
     c.transport_mode = mode.clone();
-    c.bind_ip = Some("127.0.0.1".into());
+    // `bad_bind`: an address this host does not own (TEST-NET-3) — every socket bind fails
+    c.bind_ip = Some(if bad_bind { "203.0.113.77".into() } else { "127.0.0.1".into() });
     c.disable_ipv6 = true;
     c.enable_upnp = false;
     c
 }
 
 pub async fn exec(sc: &Script) -> Outcome {
-    let pc = PeerConnection::new(config(&sc.mode));
+    let pc = PeerConnection::new(config(&sc.mode, sc.bad_bind));
     let mut t = Tables::default();
     let pool = pool(&sc.mode);
     let mut last_created: Option<SessionDescription> = None;
@@ -387,8 +404,17 @@ pub async fn exec(sc: &Script) -> Outcome {
         match &res {
             Err(e) => {
                 n_err += 1;
-                for f in diff_fields(&before, &after) {
-                    fails.push((format!("atom:{cls}:{st}:{f}"), format!("call #{i} `{}` returned Err({e}) but {f} changed", call_text(call))));
+                let changed = diff_fields(&before, &after);
+                if is_env_error(e) {
+                    // one class per call site: the socket / ICE layer failed after the description was applied
+                    if !changed.is_empty() {
+                        fails.push((format!("atom:{cls}:{st}:io-failure-after-apply"),
+                            format!("call #{i} `{}` returned Err({e}) but {} changed", call_text(call), changed.join(", "))));
+                    }
+                } else {
+                    for f in changed {
+                        fails.push((format!("atom:{cls}:{st}:{f}"), format!("call #{i} `{}` returned Err({e}) but {f} changed", call_text(call))));
+                    }
                 }
             }
             Ok(()) => {
@@ -400,13 +426,14 @@ pub async fn exec(sc: &Script) -> Outcome {
             }
         }
         if after.signaling_state != spec {
-            fails.push((format!("spec:state-differs:{cls}:{st}"), format!("after call #{i} `{}` the reported state is {} but the JSEP machine is in {}",
+            let q = if matches!(&res, Err(e) if is_env_error(e)) { ":io-failure-after-apply" } else { "" };
+            fails.push((format!("spec:state-differs:{cls}:{st}{q}"), format!("after call #{i} `{}` the reported state is {} but the JSEP machine is in {}",
                 call_text(call), sig_text(after.signaling_state), sig_text(spec))));
             spec = after.signaling_state; // resynchronise: report each divergence once
         }
     }
     pc.close();
-    let input = format!("{} {} {} {}", script_text(sc), mode_ch(&sc.mode),
+    let input = format!("{} {}{} {} {}", script_text(sc), mode_ch(&sc.mode), if sc.bad_bind { "!" } else { "" },
         if sc.trxs.is_empty() { "_".to_string() } else { sc.trxs.iter().map(|(k, d)| format!("{},{}", kind_name(*k), tdir_name(*d))).collect::<Vec<_>>().join(";") },
         toks.join(" "));
     Outcome { input, output: outs.join(" "), fails, n_err, n_ok, states }
@@ -430,6 +457,7 @@ fn alphabet() -> Vec<Call> {
         Call::SetLocal(Src::Modified(0), Offer),
         Call::SetRemote(Src::AnswerTo(1), Answer),
         Call::SetLocal(Src::Last, Rollback),
+        Call::SetRemote(Src::Pool(8), Offer),
         Call::Close,
     ]
 }
@@ -440,6 +468,7 @@ fn prefixes() -> Vec<(&'static str, Vec<Call>)> {
         ("fresh", vec![]),
         ("negotiated_offerer", vec![Call::CreateOffer, Call::SetLocal(Src::Last, Offer), Call::SetRemote(Src::AnswerTo(0), Answer)]),
         ("negotiated_answerer", vec![Call::SetRemote(Src::Pool(0), Offer), Call::CreateAnswer, Call::SetLocal(Src::Last, Answer)]),
+        ("negotiated_started", vec![Call::SetRemote(Src::Pool(0), Offer), Call::CreateAnswer, Call::SetLocal(Src::Last, Answer), Call::DtlsStart]),
     ]
 }
 
@@ -457,7 +486,23 @@ fn random_call(rng: &mut Rng) -> Call {
     }
 }
 
-fn emit(run: &mut Run, rt: &tokio::runtime::Runtime, sc: &Script) {
+/// The runtime is replaced every few hundred cases: dropping it drops the tasks (and sockets) of the
+/// closed connections, which a current-thread runtime would otherwise only reap when polled.
+pub struct Rt { rt: Option<tokio::runtime::Runtime>, n: usize }
+impl Rt {
+    pub fn new() -> Self { Rt { rt: None, n: 0 } }
+    pub fn get(&mut self) -> &tokio::runtime::Runtime {
+        self.n += 1;
+        if self.rt.is_none() || self.n % 300 == 0 {
+            self.rt = None;
+            self.rt = Some(tokio::runtime::Builder::new_current_thread().enable_all().build().unwrap());
+        }
+        self.rt.as_ref().unwrap()
+    }
+}
+
+fn emit(run: &mut Run, rt: &mut Rt, sc: &Script) {
+    let rt = rt.get();
     let text = script_text(sc);
     let o = match crate::catch(std::panic::AssertUnwindSafe(|| rt.block_on(exec(sc)))) {
         Ok(o) => o,
@@ -475,8 +520,9 @@ fn emit(run: &mut Run, rt: &tokio::runtime::Runtime, sc: &Script) {
 }
 
 pub fn run(args: &Args) {
-    let rt = tokio::runtime::Builder::new_current_thread().enable_all().build().unwrap();
+    let mut rt = Rt::new();
     if let Some(case) = &args.replay {
+        let rt = rt.get();
         let sc = parse_script(case);
         let o = rt.block_on(exec(&sc));
         println!("script: {}", script_text(&sc));
@@ -500,7 +546,7 @@ pub fn run(args: &Args) {
                     let mut calls = pre.clone();
                     let mut k = idx;
                     for _ in 0..3 { calls.push(al[k % al.len()].clone()); k /= al.len(); }
-                    emit(&mut run, &rt, &Script { mode: mode.clone(), trxs: base_trx.clone(), calls });
+                    emit(&mut run, &mut rt, &Script { mode: mode.clone(), bad_bind: false, trxs: base_trx.clone(), calls });
                 }
                 run.count_n(&format!("exhaustive_len3_{}_{}", mode_ch(mode), pname), al.len().pow(3) as u64);
                 continue;
@@ -509,7 +555,7 @@ pub fn run(args: &Args) {
                 let mut calls = pre.clone();
                 let mut k = idx;
                 for _ in 0..len { calls.push(al[k % al.len()].clone()); k /= al.len(); }
-                emit(&mut run, &rt, &Script { mode: mode.clone(), trxs: base_trx.clone(), calls });
+                emit(&mut run, &mut rt, &Script { mode: mode.clone(), bad_bind: false, trxs: base_trx.clone(), calls });
             }
             run.count_n(&format!("exhaustive_len{}_{}_{}", len, mode_ch(mode), pname), n as u64);
         }
@@ -531,12 +577,28 @@ pub fn run(args: &Args) {
         if trxs.is_empty() && !calls.is_empty() && calls[0] == Call::CreateOffer { calls.clear(); }
         let n = rng.range(1, 10) as usize;
         for _ in 0..n { calls.push(random_call(&mut rng)); }
-        emit(&mut run, &rt, &Script { mode, trxs, calls });
+        emit(&mut run, &mut rt, &Script { mode, bad_bind: false, trxs, calls });
     }
     run.count_n("random_sequences", nrand);
+    // (3) environment failure: every socket bind fails (bind address not owned by the host). The direct
+    //     modes bind inside the signaling calls and report the failure after applying the description.
+    let blen = if args.tier_thorough { 3 } else { 2 };
+    for idx in 0..al.len().pow(blen as u32) {
+        let mut calls = vec![];
+        let mut k = idx;
+        for _ in 0..blen { calls.push(al[k % al.len()].clone()); k /= al.len(); }
+        emit(&mut run, &mut rt, &Script { mode: TransportMode::Rtp, bad_bind: true, trxs: base_trx.clone(), calls });
+    }
+    run.count_n(&format!("bind_fails_exhaustive_len{blen}_r"), al.len().pow(blen as u32) as u64);
+    for sc in ["r!/a0,v0/srP1o;ca", "r!/a0/slP0o;srA0a", "r!/a0/slP0o;srA0p;srA0a", "r!//srP12o;ca", "r!/a0/srP13o", "r!/a0/srP3o;ca",
+               "r!/a0,a0/srP9o;ca", "r!/v0/srP4o;ca", "r!/a0/slP0o;srA0a;srP11o", "s!/a0/co", "s!/a0/srP0o;ca", "s!/a0/slP0o;srA0a",
+               "w!/a0/co;slLo;srA0a", "w!/a0/srP0o;ca;slLa"] {
+        emit(&mut run, &mut rt, &parse_script(sc));
+        run.count("bind_fails_directed");
+    }
     run.exhaustive = true;
     run.notes.insert("exhaustive_scope".into(), serde_json::json!(format!(
-        "all {}^{} call sequences over a {}-symbol alphabet after each of 3 prefixes (fresh / negotiated as offerer / negotiated as answerer) in 3 transport modes",
+        "all {}^{} call sequences over a {}-symbol alphabet after each of 4 prefixes (fresh / negotiated as offerer / negotiated as answerer / negotiated and transport started) in 3 transport modes",
         al.len(), len, al.len())));
     run.finish();
 }
